@@ -113,6 +113,14 @@ struct Env {
     par: Vec<Vec<usize>>,
     jj_ids: Vec<Option<CommitId>>,
     cases: usize,
+    /// filler bookmarks: always in sync with the remote, moved by every Push
+    /// together with the modelled bookmarks (many-refs dimension)
+    fillers: Vec<String>,
+    fill_place: String,
+    /// the commit number (1 or 2) all fillers currently sit on
+    fill_cur: usize,
+    /// a push left the fillers out of sync: do not reuse this Env
+    fill_broken: bool,
 }
 
 struct Case<'a> {
@@ -177,6 +185,10 @@ impl Env {
             par: par.to_vec(),
             jj_ids: vec![None; par.len()],
             cases: 0,
+            fillers: vec![],
+            fill_place: String::new(),
+            fill_cur: 1,
+            fill_broken: false,
         })
     }
 
@@ -184,8 +196,18 @@ impl Env {
     /// per Env) and handed to the other clone through refs/keep/* on the
     /// remote; `otheronly` commits are created in the other clone for this
     /// case (jj learns them only by fetching a branch that points to them).
-    fn start(&mut self, otheronly: &[usize], nb: usize, real_other_push: bool) -> Result<Case<'_>, String> {
+    fn start(
+        &mut self,
+        otheronly: &[usize],
+        nb: usize,
+        real_other_push: bool,
+        nfill: usize,
+        place: &str,
+    ) -> Result<Case<'_>, String> {
         self.cases += 1;
+        if nfill > 0 && (otheronly.contains(&1) || otheronly.contains(&2) || self.par.len() < 2) {
+            return Err("harness: fillers need commits 1 and 2 to be jj commits".into());
+        }
         let mut commits = Commits::new();
         let mut tx = self.repo.start_transaction();
         let mut dirty = false;
@@ -268,6 +290,7 @@ impl Env {
                 }
             }
         }
+        self.ensure_fillers(nfill, place, &commits)?;
         Ok(Case {
             env: self,
             commits,
@@ -276,6 +299,58 @@ impl Env {
             jj_lacks: otheronly.to_vec(),
             real_other_push,
         })
+    }
+}
+
+impl Env {
+    /// Make the set of filler bookmarks be `nfill` names sorting before
+    /// ("after": the modelled bookmarks come after them) or after ("before")
+    /// the modelled names, all in sync on commit 1: remote branch,
+    /// refs/remotes/origin ref, jj's remote-tracking bookmark (tracked), jj's
+    /// last-seen git ref and the local bookmark.
+    fn ensure_fillers(&mut self, nfill: usize, place: &str, commits: &Commits) -> Result<(), String> {
+        if self.fillers.len() == nfill && (nfill == 0 || self.fill_place == place) {
+            return Ok(());
+        }
+        let old = std::mem::take(&mut self.fillers);
+        let new: Vec<String> = (0..nfill)
+            .map(|i| if place == "after" { format!("a{i:03}") } else { format!("zz{i:03}") })
+            .collect();
+        if !old.is_empty() {
+            let dels: Vec<String> = old.iter().map(|n| format!("delete refs/heads/{n}")).collect();
+            self.remote_writer.transact(&dels)?;
+            let dels: Vec<String> = old.iter().map(|n| format!("delete refs/remotes/origin/{n}")).collect();
+            self.jj_writer.transact(&dels)?;
+        }
+        if !new.is_empty() {
+            let hex = commits.hex(1);
+            let ups: Vec<String> = new.iter().map(|n| format!("update refs/heads/{n} {hex}")).collect();
+            self.remote_writer.transact(&ups)?;
+            let ups: Vec<String> = new.iter().map(|n| format!("update refs/remotes/origin/{n} {hex}")).collect();
+            self.jj_writer.transact(&ups)?;
+        }
+        let mut tx = self.repo.start_transaction();
+        let gone = RemoteRef { target: RefTarget::absent(), state: RemoteRefState::New };
+        for n in &old {
+            let name: &RefName = n.as_str().as_ref();
+            let m = tx.repo_mut();
+            m.set_local_bookmark_target(name, RefTarget::absent());
+            m.set_git_ref_target(format!("refs/remotes/origin/{n}").as_str().as_ref(), RefTarget::absent());
+            m.set_remote_bookmark(origin_sym(name), gone.clone());
+        }
+        let t1 = RefTarget::normal(commits.id(1).clone());
+        for n in &new {
+            let name: &RefName = n.as_str().as_ref();
+            let m = tx.repo_mut();
+            m.set_local_bookmark_target(name, t1.clone());
+            m.set_git_ref_target(format!("refs/remotes/origin/{n}").as_str().as_ref(), t1.clone());
+            m.set_remote_bookmark(origin_sym(name), RemoteRef { target: t1.clone(), state: RemoteRefState::Tracked });
+        }
+        self.repo = tx.commit("fillers").block_on().map_err(|e| e.to_string())?;
+        self.fillers = new;
+        self.fill_place = place.to_string();
+        self.fill_cur = 1;
+        Ok(())
     }
 }
 
@@ -305,13 +380,14 @@ impl Case<'_> {
         }
         self.env.remote_writer.verify(&to_verify)?;
         let mut extra: BTreeSet<String> = BTreeSet::new();
+        let fillers: std::collections::HashSet<&str> = self.env.fillers.iter().map(|s| s.as_str()).collect();
         for n in rrefs.keys() {
-            if !names.contains(n) {
+            if !names.contains(n) && !fillers.contains(n.as_str()) {
                 extra.insert(format!("remote:{n}"));
             }
         }
         for (n, _) in view.local_bookmarks() {
-            if !names.iter().any(|x| x == n.as_str()) {
+            if !names.iter().any(|x| x == n.as_str()) && !fillers.contains(n.as_str()) {
                 extra.insert(format!("local:{}", n.as_str()));
             }
         }
@@ -389,6 +465,19 @@ impl Case<'_> {
 
     /// what `jj git push --bookmark ...` does for the bookmarks in `set`
     fn push(&mut self, set: &[usize], rec: &mut Value) -> Result<(), String> {
+        // many-refs dimension: every filler is moved (1 <-> 2) so that it is part of this push
+        let nfill = self.env.fillers.len();
+        let fill_new = if self.env.fill_cur == 1 { 2 } else { 1 };
+        if nfill > 0 {
+            let mut tx = self.env.repo.start_transaction();
+            let t = RefTarget::normal(self.commits.id(fill_new).clone());
+            for n in &self.env.fillers {
+                tx.repo_mut().set_local_bookmark_target(n.as_str().as_ref(), t.clone());
+            }
+            self.env.repo = tx.commit("move fillers").block_on().map_err(|e| e.to_string())?;
+        }
+        rec["fillers"] = json!(nfill);
+        rec["fill_ok"] = json!(true);
         let view = self.env.repo.view();
         let mut targets = GitPushRefTargets::default();
         let mut skipped: Vec<Value> = vec![];
@@ -408,6 +497,18 @@ impl Case<'_> {
                 other => skipped.push(json!([b, format!("{other:?}")])),
             }
         }
+        for n in &self.env.fillers {
+            let name: &RefName = n.as_str().as_ref();
+            let lr = LocalAndRemoteRef {
+                local_target: view.get_local_bookmark(name),
+                remote_ref: view.get_remote_bookmark(origin_sym(name)),
+            };
+            if let RefPushAction::Update(diff) = classify_ref_push_action(lr) {
+                targets.bookmarks.push((RefNameBuf::from(n.as_str()), diff));
+            }
+        }
+        // the order `jj git push` passes them in: by name
+        targets.bookmarks.sort_by(|a, b| a.0.cmp(&b.0));
         rec["asked"] = json!(asked);
         rec["skipped"] = json!(skipped);
         let idx = |full: &str| -> usize { (1..=self.nb).find(|&k| headref(k) == full).unwrap_or(99) };
@@ -430,9 +531,15 @@ impl Case<'_> {
         );
         match r {
             Ok(stats) => {
-                let mut pushed: Vec<usize> = stats.pushed.iter().map(|n| idx(n.as_str())).collect();
-                let mut rejected: Vec<usize> = stats.rejected.iter().map(|(n, _)| idx(n.as_str())).collect();
-                let mut rr: Vec<usize> = stats.remote_rejected.iter().map(|(n, _)| idx(n.as_str())).collect();
+                let mut pushed: Vec<usize> = stats.pushed.iter().map(|n| idx(n.as_str())).filter(|&k| k != 99).collect();
+                let mut rejected: Vec<usize> = stats.rejected.iter().map(|(n, _)| idx(n.as_str())).filter(|&k| k != 99).collect();
+                let mut rr: Vec<usize> = stats.remote_rejected.iter().map(|(n, _)| idx(n.as_str())).filter(|&k| k != 99).collect();
+                let fill_pushed = stats
+                    .pushed
+                    .iter()
+                    .filter(|n| n.as_str().strip_prefix("refs/heads/").is_some_and(|x| self.env.fillers.iter().any(|f| f == x)))
+                    .count();
+                rec["fill_pushed"] = json!(fill_pushed);
                 pushed.sort();
                 rejected.sort();
                 rr.sort();
@@ -452,6 +559,25 @@ impl Case<'_> {
                 rec["remote_rejected"] = json!([]);
                 rec["unexported"] = json!([]);
                 rec["err"] = json!(format!("{e}").lines().take(4).collect::<Vec<_>>().join(" | "));
+                rec["fill_pushed"] = json!(0);
+            }
+        }
+        if nfill > 0 {
+            // every filler was in sync, so every filler must have gone through and be recorded
+            let rrefs = list_refs(&self.env.remote_dir, "refs/heads");
+            let want = self.commits.hex(fill_new);
+            let view = self.env.repo.view();
+            let ok = rec["fill_pushed"].as_u64() == Some(nfill as u64)
+                && self.env.fillers.iter().all(|n| {
+                    rrefs.get(n) == Some(&want)
+                        && view.get_remote_bookmark(origin_sym(n.as_str().as_ref())).target.as_normal()
+                            == Some(self.commits.id(fill_new))
+                });
+            rec["fill_ok"] = json!(ok);
+            if ok {
+                self.env.fill_cur = fill_new;
+            } else {
+                self.env.fill_broken = true;
             }
         }
         Ok(())
@@ -549,6 +675,7 @@ struct Runner {
     case_no: usize,
     reuse: usize,
     real_other_push: bool,
+    fill_every: usize,
 }
 
 impl Runner {
@@ -585,11 +712,13 @@ impl Runner {
             return Err("too many bookmarks".into());
         }
         let real = self.real_other_push;
+        let nfill = spec["fill"]["n"].as_u64().unwrap_or(0) as usize;
+        let place = spec["fill"]["place"].as_str().unwrap_or("after").to_string();
         let env = self.env_for(&par)?;
-        let mut case = env.start(&otheronly, nb, real)?;
+        let mut case = env.start(&otheronly, nb, real, nfill, &place)?;
         let init = case.project()?;
         out.emit(&json!({"op": "reset", "case": case_no, "par": par, "otheronly": otheronly, "nb": nb,
-                         "src": src, "post": init}));
+                         "fillers": nfill, "place": place, "src": src, "post": init}));
         for s in spec["steps"].as_array().ok_or("case without steps")? {
             let mut rec = case.step(s);
             if let Some(exp) = s.get("post") {
@@ -601,6 +730,9 @@ impl Runner {
                 self.env = None;
                 break;
             }
+        }
+        if self.env.as_ref().is_some_and(|e| e.fill_broken) {
+            self.env = None;
         }
         Ok(())
     }
@@ -617,11 +749,17 @@ impl Runner {
         let n = par.len();
         let len = rng.range(3, max_steps);
         let real = self.real_other_push;
+        // every `fill_every`-th history is pushed together with 70 or 140 filler bookmarks
+        let (nfill, place) = if self.fill_every > 0 && case_no % self.fill_every == 0 {
+            (*rng.pick(&[70usize, 140]), if rng.chance(3, 4) { "after" } else { "before" })
+        } else {
+            (0, "after")
+        };
         let env = self.env_for(&par)?;
-        let mut case = env.start(&otheronly, nb, real)?;
+        let mut case = env.start(&otheronly, nb, real, nfill, place)?;
         let init = case.project()?;
         out.emit(&json!({"op": "reset", "case": case_no, "par": par, "otheronly": otheronly, "nb": nb,
-                         "src": "rnd", "post": init}));
+                         "fillers": nfill, "place": place, "src": "rnd", "post": init}));
         let mut known = usizes(&init["known"]);
         let mut remote = usizes(&init["remote"]);
         let mut failed = false;
@@ -655,7 +793,7 @@ impl Runner {
                 break;
             }
         }
-        if failed {
+        if failed || self.env.as_ref().is_some_and(|e| e.fill_broken) {
             self.env = None;
         }
         Ok(())
@@ -670,6 +808,7 @@ pub fn run(opts: &Opts) -> Result<(), String> {
         case_no: 0,
         reuse: opts.usize("reuse", 200),
         real_other_push: opts.str("otherpush", "real") == "real",
+        fill_every: opts.usize("fillevery", 0),
     };
     if let Some(path) = opts.get("replay") {
         let (shard, of) = (opts.usize("shard", 0), opts.usize("of", 1));
